@@ -379,12 +379,16 @@ def main(argv=None):
                                                          "ok" if res[0] == 0 else sh.ERRNAME.get(res[1], "err")))
                 if verdict not in (None, "skip"):
                     via = "" if layer == "storage" else " (through Datastore/Bucket)"
+                    rich = sh.rich_values(run["ops"][j:j + 1])
+                    if rich:
+                        verdict += f"; op {sh.describe(op)} with data label(s) " + ", ".join(f"{k} = {v}" for k, v in rich.items())[:400]
                     ck.failing_input(f"C02:{be}:{sh.OPNAME[op[0]]}:{verdict.split(':')[0][:60]}", f"{be}{via}: {verdict}",
                                      {"backend": be, "layer": layer,
                                       "history": [sh.describe(o) for o in run["ops"][:j + 1]],
                                       "wire_ops": run["ops"][:j + 1], "universe": univ,
                                       "object_reuse": run["objs"][:j + 1] if any(run["objs"][:j + 1]) else None,
                                       "before": before, "after": after, "result": res,
+                                      "data_of_label": sh.rich_values(run["ops"][j:j + 1]),
                                       "how": "harness.store_hist.replay_run(backend, wire_ops, universe, layer, "
                                              "object_reuse): the ops in order on a fresh back end; layer 'datastore' = "
                                              "every call through aw_datastore.Datastore / Bucket (Bucket.insert(Event) for "
